@@ -71,8 +71,9 @@ Sum == acc => Abs(SumSeq(p) - req * den) <= SumTol * den
 (* The other order relations need no slack: signs survive rounding; the ratings are lattice points in   *)
 (* the whole domain (integer watts are never a rounding boundary), and -mpo <= rgn holds exactly in     *)
 (* f64 (mpo = max(p, -rgn), electric_drivetrain.rs:201), which monotone odd rounding preserves.          *)
-RangePosS(s) == (acc /\ req > 0) => \A i \in 1..N : 0 <= p[i] /\ p[i] <= (pub[i] + s) * den
-RangePos == RangePosS(0)
+RangePosOf(ac, rq, pp, pb, dn, s) ==
+  (ac /\ rq > 0) => \A i \in 1..Len(pp) : 0 <= pp[i] /\ pp[i] <= (pb[i] + s) * dn
+RangePos == RangePosOf(acc, req, p, pub, den, 0)
 
 RangeNeg == (acc /\ req < 0) => \A i \in 1..N : -(rat[i] * den) <= p[i] /\ p[i] <= 0
 
